@@ -51,7 +51,7 @@ class Source:
         ev = gen.make_events(n + 2 if kind.startswith("child") else
                              n + 3 if kind.startswith("grandchild") else n,
                              seed=seed)
-        self.logs = {"vf-log": ["first line", "second µ line"],
+        self.logs = {"vf-log": ["first line", "second µ line", "trailing blanks   "],
                      # more UTF-8 bytes than characters, > 100 bytes
                      "vf-instrument": ["flow 0.04 µl/s, 23.5 °C " * 4 + "[ok]",
                                        "short"]}
